@@ -30,6 +30,13 @@ ELEMENTWISE_TM = {"offsets", "snaps", "beats"}
 @dataclass
 class SeqV:
     elem: ast.AST
+    length: Optional[str] = None      # text of its length when known by construction: "len(rows)" for [f(r) for r in rows]
+
+
+@dataclass
+class CatV:
+    """A + B + C of sequences whose lengths are known by construction; slicing it at sums of those lengths gives a part back"""
+    parts: list                        # [SeqV with a length]
 
 
 @dataclass
@@ -42,7 +49,7 @@ class ExprV:
     node: ast.AST
 
 
-Val = Union[SeqV, TupV, ExprV]
+Val = Union[SeqV, TupV, ExprV, CatV]
 
 
 def atom(name: str, *args: ast.AST) -> ast.AST:
@@ -66,6 +73,8 @@ def subst(e: ast.AST, env: Dict[str, ast.AST]) -> ast.AST:
 def elem_of(v: Val) -> ast.AST:
     if isinstance(v, SeqV):
         return v.elem
+    if isinstance(v, CatV):
+        return atom("@elem", atom("@cat", *[p.elem for p in v.parts]))
     if isinstance(v, TupV):
         return ast.Tuple(elts=[elem_of(i) for i in v.items], ctx=ast.Load())
     return atom("@elem", v.node)
@@ -106,10 +115,16 @@ class Flow:
                 v = self.eval(e.args[0])
                 recv = subst(f.value, self._scalar_env())
                 rest = [subst(a, self._scalar_env()) for a in e.args[1:]]
-                return SeqV(atom(f"@tm.{f.attr}", recv, elem_of(v), *rest))
+                if isinstance(v, CatV):
+                    # element-wise and order-preserving (C10.R1): one query for a concatenation answers each part in place
+                    return CatV([SeqV(atom(f"@tm.{f.attr}", recv, p.elem, *rest), p.length) for p in v.parts])
+                return SeqV(atom(f"@tm.{f.attr}", recv, elem_of(v), *rest), v.length if isinstance(v, SeqV) else None)
             return ExprV(self._subst_all(e))
         if isinstance(e, (ast.ListComp, ast.GeneratorExp)):
             saved = dict(self.env)
+            length = None
+            if len(e.generators) == 1 and not e.generators[0].ifs and isinstance(e.generators[0].iter, ast.Name):
+                length = f"len({e.generators[0].iter.id})"       # one element per element of a named sequence
             try:
                 for g in e.generators:
                     it = self.eval(g.iter)
@@ -117,10 +132,50 @@ class Flow:
                 el = self._subst_all(e.elt)
             finally:
                 self.env = saved
-            return SeqV(el)
+            return SeqV(el, length)
+        if isinstance(e, ast.BinOp) and isinstance(e.op, ast.Add):
+            a, b = self.eval(e.left), self.eval(e.right)
+            pa = a.parts if isinstance(a, CatV) else ([a] if isinstance(a, SeqV) and a.length else None)
+            pb = b.parts if isinstance(b, CatV) else ([b] if isinstance(b, SeqV) and b.length else None)
+            if pa and pb:
+                return CatV(list(pa) + list(pb))
+        if isinstance(e, ast.IfExp) and isinstance(e.orelse, (ast.List, ast.Tuple)) and not e.orelse.elts:
+            # `f(xs) if xs else []`: the empty case is what the element-wise call gives for no elements
+            v = self.eval(e.body)
+            if isinstance(v, (SeqV, CatV)):
+                return v
+        if isinstance(e, ast.Subscript) and isinstance(e.slice, ast.Slice) and e.slice.step is None:
+            v = self.eval(e.value)
+            if isinstance(v, CatV):
+                part = self._slice_part(v, e.slice)
+                if part is not None:
+                    return part
         if isinstance(e, ast.Tuple):
             return TupV([self.eval(x) for x in e.elts])
         return ExprV(self._subst_all(e))
+
+    def _slice_part(self, v: "CatV", sl: ast.Slice):
+        """the part of a concatenation that [lo:hi] cuts out, when lo and hi are the sums of the lengths before / through one part"""
+        from . import sym
+        import re
+
+        def rf(txt):
+            return sym.canon(ast.parse(txt, mode="eval").body, lambda n: ("L_" + re.sub(r"\W", "_", ast.unparse(n))) if isinstance(n, ast.Call) and
+                             isinstance(n.func, ast.Name) and n.func.id == "len" else None)
+        bounds = ["0"]
+        for p in v.parts:
+            bounds.append(f"({bounds[-1]}) + ({p.length})")
+        lo = ast.unparse(self._subst_all(sl.lower)) if sl.lower is not None else "0"
+        hi = ast.unparse(self._subst_all(sl.upper)) if sl.upper is not None else None
+        try:
+            lo_rf = rf(lo)
+            hi_rf = rf(hi) if hi is not None else None
+            for i in range(len(v.parts)):
+                if lo_rf.same(rf(bounds[i])) and ((hi_rf is None and i == len(v.parts) - 1) or (hi_rf is not None and hi_rf.same(rf(bounds[i + 1])))):
+                    return v.parts[i]
+        except Exception:
+            return None
+        return None
 
     def _subst_all(self, e: ast.AST) -> ast.AST:
         env = {}
